@@ -150,6 +150,12 @@ func VerifC19History() {
 	cfg := NewConfig("me")
 	cfg.EnableCapabilityNegotiation = true
 	cfg.Capabilites = []string{c1, c2}
+	withSasl := vParam("SASL", 0) == 1
+	if withSasl {
+		// SASL is configured but the server never offers it; it may still name it with '-'
+		cfg.Sasl = sasl.NewPlainClient("", "u", "p")
+		uni = append(uni, "sasl")
+	}
 	conn := Client(cfg)
 	conn.initialise()
 	conn.out = make(chan string, 32)
@@ -167,7 +173,14 @@ func VerifC19History() {
 			if nak {
 				hi = 1
 			}
-			switch vLen("mention"+is, 0, hi) {
+			m := vLen("mention"+is, 0, hi)
+			if c == "sasl" && m == 1 {
+				m = 2 // (sasl is only ever taken away here; offering it starts authentication, which VerifC19Negotiation covers)
+				if nak {
+					m = 0
+				}
+			}
+			switch m {
 			case 1:
 				names = append(names, c)
 				if !nak {
@@ -178,7 +191,7 @@ func VerifC19History() {
 				held[c] = false
 			}
 		}
-		if vLen("swap"+es, 0, 1) == 1 && len(names) == 2 {
+		if vLen("swap"+es, 0, 1) == 1 && len(names) >= 2 {
 			names[0], names[1] = names[1], names[0]
 		}
 		verb := "ACK"
